@@ -49,6 +49,7 @@ const (
 	AFeedHoldReply // the reader reads call C's reply, looks up its waiter and is parked before handing it over
 	AFeedHoldStray // the same for a frame with wire id Wid
 	AReaderGo      // the parked reader goes on
+	AFeedPair      // stream framing: the replies to calls C and C2 arrive in one segment (one Read can return both); two AFeed entries in the script
 	AFeedReadReply // the reader's Read takes call C's reply off the connection and is parked before it returns (no lookup yet)
 	AFeedSplitReply // TCP: call C's reply arrives in two pieces (the body is cut; the reader has consumed the first piece)
 )
@@ -61,6 +62,8 @@ type Action struct {
 	Hold bool   // AWriteEnd: park the caller at "tdc.exchange.written"
 	Tag  int    // AFeedReply / AFeedStray: payload tag
 	Wid  uint16 // AFeedStray / ASetQid
+	C2   int    // AFeedPair: the second call
+	Tag2 int    // AFeedPair: its payload tag
 	// Answer: AFeedStray synthesised by the executor — the server's answer to a re-sent datagram of call C that
 	// carried the id Wid instead of C's wire id (an honest server answers under the id it received)
 	Answer bool
@@ -528,6 +531,8 @@ func (v *View) applicable0(a Action) bool {
 		return v.applicable0(Action{K: AFeedReply, C: a.C, Tag: a.Tag})
 	case AFeedEofReply, AFeedSplitReply:
 		return v.TCP && v.applicable0(Action{K: AFeedReply, C: a.C, Tag: a.Tag})
+	case AFeedPair:
+		return v.TCP && a.C != a.C2 && v.applicable0(Action{K: AFeedReply, C: a.C, Tag: a.Tag}) && v.applicable0(Action{K: AFeedReply, C: a.C2, Tag: a.Tag2})
 	case AFeedStray, AFeedHoldStray:
 		return !v.Closed && !v.ReadErr && widFree(a.Wid, -1)
 	case AFeedErr, AExpire:
@@ -705,6 +710,36 @@ func Run(s Script, next func(v *View) *Action) (Script, []Obs, Final) {
 			continue
 		}
 		if a.Answer && (v.Closed || v.ReadErr) {
+			continue
+		}
+		if a.K == AFeedPair {
+			// both frames are in the connection's buffer before the reader wakes up; for the model this is
+			// frame one, then frame two (the reader takes them in order): two script entries, the first call's
+			// return attributed to the first
+			c1, c2 := get(a.C), get(a.C2)
+			for _, x := range []*callRec{c1, c2} {
+				if x.st == csInWrite || x.st == csHeld || x.st == csWaiting {
+					x.replied = true
+				}
+			}
+			fc.feed(append(replyFrame(s.TCP, c1.wid, a.Tag), replyFrame(s.TCP, c2.wid, a.Tag2)...))
+			frameAfterSend = true
+			staleWaiting = false
+			idleSeen++
+			fc.waitIdle(idleSeen, waitReturn)
+			var o Obs
+			collect(&o)
+			sort.Slice(o.Ret, func(i, j int) bool { return o.Ret[i].C < o.Ret[j].C })
+			var o1, o2 Obs
+			for _, r := range o.Ret {
+				if r.C == a.C {
+					o1.Ret = append(o1.Ret, r)
+				} else {
+					o2.Ret = append(o2.Ret, r)
+				}
+			}
+			s.Actions = append(s.Actions, Action{K: AFeedReply, C: a.C, Tag: a.Tag}, Action{K: AFeedReply, C: a.C2, Tag: a.Tag2})
+			obs = append(obs, o1, o2)
 			continue
 		}
 		s.Actions = append(s.Actions, a)
